@@ -3,6 +3,7 @@ mod rnd;
 mod runner;
 mod script;
 mod types;
+mod vectors;
 mod vclock;
 
 use std::io::{BufRead, Write};
@@ -119,6 +120,32 @@ fn main() {
                 writeln!(out, "{}", serde_json::json!({"e":"twin","kind":args[2],"dropped":skip.len()})).unwrap();
             }
             eprintln!("ran {count} twin pairs ({}), {bad} runs with mismatch/panic/watchdog", args[2]);
+        }
+        // mqv vectors <vectors.ndjson> <trace-out.ndjson> [rx]
+        "vectors" => {
+            let input = std::fs::File::open(&args[2]).expect("open vectors");
+            let mut out = std::io::BufWriter::new(std::fs::File::create(&args[3]).expect("create out"));
+            let rx: usize = args.get(4).map(|s| s.parse().unwrap()).unwrap_or(64);
+            let mut cfg: types::Cfg = serde_json::from_str(r#"{"rx":64,"tx":256,"client_id":[118],"ka":0,"sei":0}"#).unwrap();
+            cfg.rx = rx;
+            let (mut n, mut bad) = (0usize, 0usize);
+            for line in std::io::BufReader::new(input).lines() {
+                let line = line.unwrap();
+                if line.trim().is_empty() {
+                    continue;
+                }
+                let v: vectors::Vector = serde_json::from_str(&line).expect("vector json");
+                cfg.name = format!("vec-{n}");
+                let res = runner::run_scenario(&cfg, Box::new(vectors::VectorDirector::new(v)));
+                for l in &res.lines {
+                    writeln!(out, "{l}").unwrap();
+                }
+                n += 1;
+                if res.panicked.is_some() || res.watchdog {
+                    bad += 1;
+                }
+            }
+            eprintln!("fed {n} vectors, {bad} with panic/watchdog");
         }
         _ => {
             eprintln!("usage: mqv run <scenarios.ndjson> <trace.ndjson>");
